@@ -366,6 +366,32 @@ def run_system(case, rng, cls):
             bad.append(('term-list-modified', 'solvePDE changed the caller\'s term list (%d -> %d entries)' % (n_terms0, len(term_list))))
         if not (e1r <= 1e-12 and e2r <= 1e-12):
             bad.append(('system-differs-reused-list', 'second solvePDE call with the SAME term list after a boundary-data edit: the system handed to the solver differs from (current boundary rows + sum of the terms): matrix error %.3g, rhs error %.3g' % (e1r, e2r)))
+    # ... and once more with nothing changed but the NUMBERS inside one matrix term (the caller rescales a reaction or transport
+    # matrix it built itself, in place: same objects, same list, clean flags on the variable)
+    if not bad and cond_plain is not None:
+        import scipy.sparse as _sps
+        cand_t = []
+        for t_, _k in terms:
+            mt_ = t_[0] if isinstance(t_, tuple) else t_
+            if _sps.issparse(mt_) and hasattr(mt_, 'data') and isinstance(mt_.data, np.ndarray) and mt_.data.size and mt_.data.dtype.kind == 'f' and mt_.data.flags.writeable:
+                cand_t.append(mt_)
+        if cand_t:
+            mt_ = cand_t[int(rng.integers(0, len(cand_t)))]
+            mt_.data *= 1.5
+            spy_t = SpySolver()
+            with np.errstate(all='ignore'):
+                pf.solvePDE(phi, term_list, externalsolver=spy_t)
+            Mt_, bt_, _xt = spy_t.last
+            Mst, bst = assemble(phi, terms)
+            dt_ = abs(sp.csr_array(Mt_) - Mst).toarray()
+            sct = (abs(sp.csr_array(Mt_)) + abs(Mst)).toarray()
+            with np.errstate(all='ignore'):
+                et = np.where(dt_ == 0, 0.0, dt_ / np.where(sct > 0, sct, 1.0))
+            e1t = float(et.max()) if et.size else 0.0
+            e2t = nerr(bt_, bst, np.abs(bt_) + np.abs(bst))
+            cov['term_edited_in_place_between_solves'] = 1
+            if not (e1t <= 1e-12 and e2t <= 1e-12):
+                bad.append(('system-differs-term-edited', 'solvePDE called again with the same term list after the entries of one matrix term were rescaled in place: the system handed to the solver is not (boundary rows + sum of the terms as they are now): matrix error %.3g, rhs error %.3g' % (e1t, e2t)))
     cov['systems'] = 1
     cov['terms'] = len(terms)
     for k in set(kinds):
